@@ -20,6 +20,9 @@ LateScen == {[writer |-> "cli", nbuf |-> nb, src |-> s, bs |-> 64, ctype |-> 0, 
 \* parameters that do not fit the format's uint32 fields must be refused, not recorded truncated (F13)
 BigScen == {[writer |-> wr, nbuf |-> 2, bigparam |-> bp, ctype |-> 0, hl |-> 64, meta |-> 0, delivery |-> "file", transport |-> "local", sched |-> "natural", reruns |-> <<>>]
             : wr \in {"lib", "cli"}, bp \in {"fixed_4g", "fixed_4g_plus", "max_4g", "max_4g_plus", "max_16g"}}
+\* the corner of the storage rule: compressed size = source size (searched by the harness with the real compressor)
+EqScen == {[writer |-> wr, nbuf |-> 2, eqcorner |-> TRUE, ctype |-> cp[1], clevel |-> cp[2], hl |-> 64, meta |-> 0, delivery |-> "file", transport |-> "local",
+            sched |-> "natural", reruns |-> <<>>] : wr \in {"lib", "cli"}, cp \in {<<3, 1>>, <<3, 6>>, <<3, 9>>, <<3, 11>>, <<2, 1>>, <<2, 3>>, <<2, 19>>, <<1, 6>>}}
 LenSeq == <<"0", "1", "ltw", "ltmin", "eqmin", "min1", "nearmax", "gtmax", "kfixed", "kfixedr", "rand", "gt1mib">>
 CompSeq == <<<<0, 0>>, <<3, 1>>, <<3, 6>>, <<3, 11>>, <<2, 1>>, <<2, 3>>, <<2, 19>>, <<1, 1>>, <<1, 6>>, <<1, 9>>>>
 ClassScen == {LET lc == LenSeq[(i % Len(LenSeq)) + 1]
@@ -38,6 +41,6 @@ VARIABLE x
 Init == x = 0
 Next == x' = x
 Post == /\ TLCGet("stats").diameter >= 0
-        /\ ndJsonSerialize(IOEnv.GEN_OUT, SetToSeq(LateScen) \o SetToSeq(BigScen) \o SetToSeq(IdScen) \o SetToSeq(ClassScen))
-        /\ PrintT(<<"GENERATED", Cardinality(LateScen) + Cardinality(BigScen) + Cardinality(IdScen) + Cardinality(ClassScen)>>)
+        /\ ndJsonSerialize(IOEnv.GEN_OUT, SetToSeq(LateScen) \o SetToSeq(BigScen) \o SetToSeq(EqScen) \o SetToSeq(IdScen) \o SetToSeq(ClassScen))
+        /\ PrintT(<<"GENERATED", Cardinality(LateScen) + Cardinality(BigScen) + Cardinality(EqScen) + Cardinality(IdScen) + Cardinality(ClassScen)>>)
 =============================================================================
